@@ -26,10 +26,15 @@ class EnvResult:
         self.samples = []
         self.coverage = {}
 
+    classify = None   # adapter.violation_class(inst, monitor) -> class string for known-finding matching
+
     def add(self, prop, monitor, inst, actions, detail=""):
-        self.violations.append({"property": prop, "env": self.env, "monitor": monitor,
-                                "inst": {k: v for k, v in inst.items()},
-                                "actions": list(actions), "detail": detail})
+        v = {"property": prop, "env": self.env, "monitor": monitor,
+             "inst": {k: v for k, v in inst.items()},
+             "actions": list(actions), "detail": detail}
+        if self.classify is not None:
+            v["cls"] = self.classify(inst, monitor)
+        self.violations.append(v)
 
 
 def _norm_pad(e, eps):
@@ -203,6 +208,7 @@ def batch_stage(ad, eps, tier, seed, res, tag):
 
 def run_env(ad, tier, seed=0, stages=("model", "bfs", "replay", "checker")):
     res = EnvResult(ad.name)
+    res.classify = getattr(ad, "violation_class", None)
     tag = ad.tag if hasattr(ad, "tag") else ad.name
     fam = ad.family(tier, seed)
     by_id = {i["id"]: i for i in fam}
